@@ -127,3 +127,22 @@ M("C03", "uris-from-even", "beacon.py", "        return list(dict.fromkeys(uri f
 M("C03", "port-reads-proto", "beacon.py", "        return self.raw_settings.get(\"SETTING_PORT\", None)", "        return self.raw_settings.get(\"SETTING_PROTOCOL\", None)", "C03.R8")
 T("C03", "twin-steps-as-sets", "beacon.py", "        TransformStep.PRINT,\n        TransformStep.MASK,\n    ]", "        TransformStep.MASK,\n        TransformStep.PRINT,\n    ]")
 T("C03", "twin-options-by-index", "beacon.py", "    options = {name for name in comms | core | cleanup if getattr(bgo, name)}", "    options = {name for name in (comms | core | cleanup) if bgo[name]}")
+
+# =============================================================================== C04
+M("C04", "b64url-decoded-as-b64", "c2.py", "                data = base64.urlsafe_b64decode(data + b\"==\")", "                data = base64.b64decode(data + b\"==\")", "C04.R2")
+M("C04", "netbios-no-upper", "c2.py", "                data = netbios_decode(data.upper())", "                data = netbios_decode(data)", "C04.R2")
+M("C04", "header-reads-body", "c2.py", "                data = http.headers[step_val]", "                data = http.body", "C04.R3")
+M("C04", "print-into-uri", "c2.py", "            elif step == \"print\":\n                body = data", "            elif step == \"print\":\n                uri = data", "C04.R3")
+M("C04", "append-wrong-side", "c2.py", "                data = data + step_val", "                data = step_val + data", "C04.R5")
+M("C04", "append-neg-slice-regression", "c2.py", "                data = data[: len(data) - step_val]", "                data = data[:-step_val]", "C04.R5")
+M("C04", "prepend-drops-tail", "c2.py", "                data = data[step_val:]", "                data = data[:step_val]", "C04.R5")
+M("C04", "mask-split-2", "c2.py", "                data = xor(data[4:], data[:4])", "                data = xor(data[2:], data[:2])", "C04.R6")
+M("C04", "recover-drops-netbiosu", "c2.py", "            elif step == \"netbiosu\":\n                data = netbios_decode(data)\n", "", "C04.R1")
+M("C04", "parameter-merge-regression", "c2.py", "            elif step == \"parameter\":\n                assert isinstance(step_val, bytes)\n                params[step_val] = data\n            elif step == \"_parameter\":\n                assert isinstance(step_val, bytes)\n                key, _, val = step_val.partition(b\"=\")\n                params[key] = val\n",
+  "            elif step == \"parameter\" or step == \"_parameter\":\n                assert isinstance(step_val, bytes)\n                params[step_val] = data\n", "C04.R4")
+M("C04", "hostheader-overwrites-data", "c2.py", "            elif step in (\"_header\", \"_hostheader\", \"_parameter\"):\n                pass", "            elif step in (\"_header\", \"_parameter\"):\n                pass\n            elif step == \"_hostheader\":\n                data = http.headers.get(b\"Host\", b\"\")", "C04.R4")
+M("C04", "build-id-reads-metadata", "c2.py", "                    data = c2data.id or b\"\"", "                    data = c2data.metadata or b\"\"", "C04.R7")
+M("C04", "server-data-for-request", "c2.py", "        if isinstance(http, HttpRequest):\n            return ClientC2Data(output=build_output, id=build_id, metadata=build_metadata)\n        return ServerC2Data", "        if isinstance(http, HttpResponse):\n            return ClientC2Data(output=build_output, id=build_id, metadata=build_metadata)\n        return ServerC2Data", "C04.R7")
+M("C04", "unknown-step-ignored", "c2.py", "            else:\n                raise ValueError(\"Unknown recover step with value: {}\".format((step, step_val)))", "            else:\n                logger.debug(\"Unknown recover step with value: {}\".format((step, step_val)))", "C04.R1")
+T("C04", "twin-in-tuple", "c2.py", "            elif step == \"_header\" or step == \"_hostheader\":", "            elif step in (\"_header\", \"_hostheader\"):")
+T("C04", "twin-uri-plus", "c2.py", "                uri += data", "                uri = uri + data")
